@@ -490,9 +490,7 @@ class Builder:
     def e_BoolOp(self, e):
         vals = [self.eval(v) for v in e.values]
         op = 'and' if isinstance(e.op, ast.And) else 'or'
-        if all(v.kind == 'const' and isinstance(v.val, bool) for v in vals):
-            return self.const(all(v.val for v in vals) if op == 'and' else any(v.val for v in vals), e)
-        return self.mk('bool', op, vals, at=e)
+        return self.boolop(op, vals, e)
 
     def e_Compare(self, e):
         left = self.eval(e.left)
@@ -500,12 +498,33 @@ class Builder:
         for op, c in zip(e.ops, e.comparators):
             right = self.eval(c)
             ops = CMPOPS.get(type(op), '?')
+            if left.kind == 'const' and right.kind == 'const' and _is_num(left.val) and _is_num(right.val) \
+                    and ops in ('<', '<=', '>', '>=', '==', '!='):
+                parts.append(self.const(_py_cmp(ops, left.val, right.val), e))
+                left = right
+                continue
             f = self.fold_consts(lambda a, b, ops=ops: _py_cmp(ops, a, b), [left, right], strings_only=True)
             parts.append(f if f is not None else self.mk('cmp', ops, [left, right], at=e))
             left = right
         if len(parts) == 1:
             return parts[0]
-        return self.mk('bool', 'and', parts, at=e)
+        return self.boolop('and', parts, e)
+
+    def boolop(self, op, vals, at):
+        consts = [v for v in vals if v.kind == 'const' and isinstance(v.val, bool)]
+        if op == 'and':
+            if any(v.val is False for v in consts):
+                return self.const(False, at)
+            rest = [v for v in vals if v not in consts]
+        else:
+            if any(v.val is True for v in consts):
+                return self.const(True, at)
+            rest = [v for v in vals if v not in consts]
+        if not rest:
+            return self.const(op == 'and', at)
+        if len(rest) == 1:
+            return rest[0]
+        return self.mk('bool', op, rest, at=at)
 
     def e_IfExp(self, e):
         c = self.eval(e.test)
@@ -1344,7 +1363,19 @@ def _py_binop(op, a, b):
     raise ValueError(op)
 
 
+def _is_num(v):
+    return isinstance(v, (int, float)) and not isinstance(v, bool)
+
+
 def _py_cmp(op, a, b):
+    if op == '<':
+        return a < b
+    if op == '<=':
+        return a <= b
+    if op == '>':
+        return a > b
+    if op == '>=':
+        return a >= b
     if op == '==':
         return a == b
     if op == '!=':
